@@ -417,25 +417,21 @@ class SegmentationSummary:
 
     @classmethod
     def _boundary_chunks_aux(cls, text, gold, chunks):
-        lg = len(gold)
-        lt = len(text)
+        # a loop and not a recursive call per chunk, which fails on
+        # utterances of more than a thousand words
+        while len(gold) or len(text):
+            # impossible to have one empty but not the other. Should be
+            # the case by construction, this assert is not required.
+            assert len(gold) and len(text)
 
-        # end of recursion
-        if not lg and not lt:
-            return chunks
+            # compute the next chunk
+            chunk = cls._compute_chunk(text, gold)
 
-        # impossible to have one empty but not the other. Should be
-        # the case by construction, this assert is not required.
-        assert lg and lt
+            text = text[len(chunk[0]):]
+            gold = gold[len(chunk[1]):]
+            chunks = chunks + [chunk]
 
-        # compute the next chunk
-        chunk = cls._compute_chunk(text, gold)
-
-        # recursion
-        return cls._boundary_chunks_aux(
-            text[len(chunk[0]):],
-            gold[len(chunk[1]):],
-            chunks + [chunk])
+        return chunks
 
     @staticmethod
     def _compute_chunk(text, gold):
